@@ -4,6 +4,7 @@ package main
 
 import (
 	"fmt"
+	"go/constant"
 	"go/token"
 	"go/types"
 	"sort"
@@ -495,6 +496,60 @@ func (f *Frame) enterBlock(b *ssa.BasicBlock, entryState *State, entryReach stri
 		f.vals[phi] = v
 		if ti := f.typeInv(v); ti != "true" {
 			tinv = append(tinv, ti)
+		}
+		// automatic monotonicity fact: a counter that is only incremented (decremented) by a non-negative
+		// constant on every back edge never drops below (rises above) its entry value. Sound for mathematical
+		// integers (mode int, no-overflow assumption recorded).
+		if c.mode == ModeInt {
+			if bits, _, ok := intInfo(phi.Type()); ok && bits == 64 {
+				dir := 0
+				okAll := true
+				for i, p := range b.Preds {
+					if !(li.body[p] && b.Dominates(p)) {
+						continue
+					}
+					bo, isBin := phi.Edges[i].(*ssa.BinOp)
+					if !isBin || bo.X != ssa.Value(phi) {
+						okAll = false
+						break
+					}
+					k, isK := bo.Y.(*ssa.Const)
+					if !isK || k.Value == nil {
+						okAll = false
+						break
+					}
+					kv, exact := constant.Int64Val(k.Value)
+					if !exact || kv < 0 {
+						okAll = false
+						break
+					}
+					d := 0
+					if bo.Op == token.ADD {
+						d = 1
+					} else if bo.Op == token.SUB {
+						d = -1
+					} else {
+						okAll = false
+						break
+					}
+					if dir != 0 && dir != d {
+						okAll = false
+						break
+					}
+					dir = d
+				}
+				if okAll && dir != 0 {
+					ev := entryPhis[phi]
+					if ev.S != "" {
+						if dir > 0 {
+							tinv = append(tinv, fmt.Sprintf("(<= %s %s)", ev.S, v.S))
+						} else {
+							tinv = append(tinv, fmt.Sprintf("(>= %s %s)", ev.S, v.S))
+						}
+						c.assume("loop counters changed only by +k / -k (k >= 0 constant) are monotone (auto-invariant; int arithmetic mathematical)")
+					}
+				}
+			}
 		}
 	}
 	// 3. assume invariants
